@@ -8,6 +8,31 @@ HOOK_COMMITS = subprocess.run(
 
 # property -> (level, technique, level text, level note, design ref)
 CLAIMED = {
+ "C02": ("exploration",
+         "deterministic request-granularity simulation of concurrent metadata clients + offline monitor over the recorded object-store event log (commit-order replay on a sequential map model, per-version index/chunk-map agreement)",
+         "Held on every explored schedule: 2-4 real ObjectStoreMetadataClients x 2-8 mutations interleaved at object-store-request granularity (uniform, PCT and starvation strategies, first-write creation races, retry exhaustion); EVERY catalog version ever written is compared with the sequential model replayed in commit order, failed operations must have committed nothing. Sampled schedules, not all of them.",
+         "InMemory object store's conditional PUT is the trusted base; interleavings finer than one object-store request are not explored; HashMap order / UUIDs make replays best-effort, so the witness event log is stored in the replay file.",
+         "DESIGN.md section 3 C02"),
+ "C05": ("fault_enumeration",
+         "crash/cut fault injection with the real WAL encoder + reference model of completely written entries; per crash point the cut offsets of the final write are enumerated (thorough: every byte)",
+         "Held on every (history, crash, cut) explored: random append / flush-mark / reopen histories over several segment limits, 1-3 consecutive crash rounds; at each crash the final write is cut at a battery of offsets (quick) or at every byte (thorough) plus rotation-created empty segment and torn flushed_seq file; after each cut: reopen, compare with the model, append, reopen, append, reopen; sequence numbers checked against acknowledged entries and persisted flushed marks.",
+         "Crash model: only the final write is torn (prefix), plus the 8-byte flushed_seq file; sync mode EveryWrite; bit rot inside older records is out of scope.",
+         "DESIGN.md section 3 C05"),
+ "C07": ("exploration",
+         "differential monitor: identical random histories on LocalMetadataClient, ObjectStoreMetadataClient and a reference interval map, boundary-biased range lookups after every operation",
+         "Held on every lookup explored: random register / re-register / delete / complete_compaction histories on both backends and an interval-map model, ~24 boundary-biased ranges (hour multiples +-1 ns, negative, zero-length, multi-day, inverted, chunk end points) after every operation, plus list_chunks/get_chunk and a fresh object-store client at the end.",
+         "Timestamps within +-60 years of the epoch (bucket stepping near i64 limits is exercised in C06's guarded sub-case); InMemory store trusted.",
+         "DESIGN.md section 3 C07"),
+ "C08": ("exploration",
+         "deterministic request-granularity simulation with scheduler-controlled shared wall clock (interposed clock_gettime) + offline monitor over every version of the lease file; real-thread stress on the in-memory backend",
+         "Held on every explored schedule: 2-4 nodes x 3-8 lease operations over 4-6 chunks, clock jumps (+1..+400 s) placed anywhere incl. between a GET and its PUT; every lease-file version checked for pairwise-disjoint live leases, no live lease removed/shortened/taken over, refusals justified by a live lease on the table read, renew/acquire results consistent with the committed version; in-memory backend: concurrent acquires, renew-in-time, reclaim after expiry, displaced holder told at renew.",
+         "One clock for all nodes (as the property assumes); no TTL constant assumed by the oracle; InMemory conditional PUT trusted.",
+         "DESIGN.md section 3 C08"),
+ "C13": ("exploration",
+         "deterministic request-granularity simulation (object-store backend) with offline monitor over every version of the shard object; real-thread stress with a rendezvous at the feature-gated sync points (in-memory backend, ShardRouter)",
+         "Held on every explored schedule / round: 2-4 nodes racing updates and creations with equal, stale and freshly read generations; every committed version of shards/<id>.json checked (generation +1, based-on generation equals stored, one creation, content from the committing update, failures without effect); in-memory backend and router: k threads issuing the same-generation update / crossing generations with the check-then-write window widened by the sync hooks.",
+         "InMemory conditional PUT trusted; the stress lane is unsystematic (real threads).",
+         "DESIGN.md section 3 C13"),
  "C12": ("exploration",
          "differential monitor: three-valued SQL reference evaluator over generated rows vs evaluate_against_stats / get_chunks_with_predicates / SQL->extract_column_predicates",
          "Held on every (rows, statistics, predicate) case generated: millions of random predicate trees (all operators, depth<=4, constants biased to the statistics' end points), statistics that are true, widened, missing, null or mistyped; the same through the object-store catalog and from SQL text with DataFusion as row-level reference. Random exploration, not exhaustive: the right level for an input-quantified pure function.",
